@@ -1356,6 +1356,58 @@ func (w *c14W) readOnly(fn *ssa.Function) bool {
 	return len(eff.Unresolved) == 0
 }
 
+// builder: v is (a result of) a call to a chess-3 function that returns, on every return, the current value
+// of one and the same local struct variable; gives that function's family, the local, and the callee
+// parameter that receives the caller's argument list `args`.
+func (w *c14W) builder(fam *c14Fam, v ssa.Value, args ssa.Value) (*c14Fam, *ssa.Alloc, ssa.Value, bool) {
+	idx := 0
+	if ex, ok := v.(*ssa.Extract); ok {
+		idx, v = ex.Index, ex.Tuple
+	}
+	call, ok := v.(*ssa.Call)
+	if !ok {
+		return nil, nil, nil, false
+	}
+	callee := call.Call.StaticCallee()
+	if callee == nil || !isOwn(callee) || callee.Blocks == nil || len(callee.Params) != len(call.Call.Args) {
+		return nil, nil, nil, false
+	}
+	var local *ssa.Alloc
+	nRet := 0
+	for _, b := range callee.Blocks {
+		if b == callee.Recover || len(b.Instrs) == 0 {
+			continue
+		}
+		ret, ok := b.Instrs[len(b.Instrs)-1].(*ssa.Return)
+		if !ok {
+			continue
+		}
+		if idx >= len(ret.Results) {
+			return nil, nil, nil, false
+		}
+		u, ok := returnedValue(ret, idx).(*ssa.UnOp)
+		if !ok || u.Op != token.MUL {
+			return nil, nil, nil, false
+		}
+		a, ok := u.X.(*ssa.Alloc)
+		if !ok || (local != nil && a != local) || !types.Identical(a.Type(), w.tc.Type()) {
+			return nil, nil, nil, false
+		}
+		local = a
+		nRet++
+	}
+	if nRet == 0 {
+		return nil, nil, nil, false
+	}
+	var hargs ssa.Value
+	for j, a := range call.Call.Args {
+		if args != nil && (a == args || fam.resolve(a) == args) {
+			hargs = callee.Params[j]
+		}
+	}
+	return c14Family(callee), local, hargs, true
+}
+
 // r4: token ↔ field map of the UCI switch.
 func (w *c14W) r4() {
 	const rule = "C14.R4"
@@ -1364,81 +1416,106 @@ func (w *c14W) r4() {
 	fields := map[string]map[int]*ssa.Store{}
 	bad := 0
 	argsOK := map[string]bool{}
+	builders := 0
 	var zeroStores, tokStores []*ssa.Store
-	for _, fn := range w.fam.fns {
-		// the struct must not escape: only field addressing, loads, stores and capture are allowed
-		for _, b := range fn.Blocks {
-			for _, in := range b.Instrs {
-				for _, op := range in.Operands(nil) {
-					if *op == nil || w.fam.origin(*op) != w.tc {
-						continue
-					}
-					switch x := in.(type) {
-					case *ssa.FieldAddr:
-						for _, r := range *x.Referrers() {
-							st, isStore := r.(*ssa.Store)
-							u, isLoad := r.(*ssa.UnOp)
-							if _, dbg := r.(*ssa.DebugRef); !dbg && !(isStore && st.Addr == x) && !(isLoad && u.Op == token.MUL) {
-								c.Undec(rule, "tc-escapes", r.Pos(), "the address of field %s of the time-control struct is used by %T: stores to it are not all visible", w.st.Field(x.Field).Name(), r)
-								bad++
-							}
-						}
-					case *ssa.MakeClosure, *ssa.DebugRef:
-					case *ssa.UnOp:
-					case *ssa.Store:
-						if k, isConst := x.Val.(*ssa.Const); x.Addr == *op && (!isConst || k.Value != nil) {
-							c.Undec(rule, "tc-whole-store", x.Pos(), "the time-control struct is overwritten as a whole with a non-zero value: fields can no longer be attributed to UCI tokens")
-							bad++
-						}
-					case *ssa.Call:
-						// pointer receivers / helpers taking &tc: fine when the callee (transitively) never
-						// writes a field of this struct type nor lets such an address escape
-						if callee := x.Call.StaticCallee(); callee != nil && isOwn(callee) && callee.Blocks != nil && w.readOnly(callee) {
+	// scan attributes the stores to the struct variable tc of one function family to UCI token tests.
+	// A whole-struct store of a value built by a chess-3 helper (tc, … := d.parseGoArgs(args)) is followed
+	// into the helper: the struct it returns must be one local of the helper on every return, and that
+	// local's field stores are attributed in the helper in the same way.
+	var scan func(fam *c14Fam, tc *ssa.Alloc, args ssa.Value, depth int)
+	scan = func(fam *c14Fam, tc *ssa.Alloc, args ssa.Value, depth int) {
+		for _, fn := range fam.fns {
+			// the struct must not escape: only field addressing, loads, stores and capture are allowed
+			for _, b := range fn.Blocks {
+				for _, in := range b.Instrs {
+					for _, op := range in.Operands(nil) {
+						if *op == nil || fam.origin(*op) != tc {
 							continue
 						}
-						c.Undec(rule, "tc-escapes", in.Pos(), "the time-control struct's address is passed to %s, which may store to it: stores are not all visible", x.Call.Value.Name())
-						bad++
-					default:
-						c.Undec(rule, "tc-escapes", in.Pos(), "the time-control struct's address is used by %T in %s: stores to it are not all visible", in, fnName(fn))
-						bad++
+						switch x := in.(type) {
+						case *ssa.FieldAddr:
+							for _, r := range *x.Referrers() {
+								st, isStore := r.(*ssa.Store)
+								u, isLoad := r.(*ssa.UnOp)
+								if _, dbg := r.(*ssa.DebugRef); !dbg && !(isStore && st.Addr == x) && !(isLoad && u.Op == token.MUL) {
+									c.Undec(rule, "tc-escapes", r.Pos(), "the address of field %s of the time-control struct is used by %T: stores to it are not all visible", w.st.Field(x.Field).Name(), r)
+									bad++
+								}
+							}
+						case *ssa.MakeClosure, *ssa.DebugRef:
+						case *ssa.UnOp:
+						case *ssa.Store:
+							if k, isConst := x.Val.(*ssa.Const); x.Addr == *op && (!isConst || k.Value != nil) {
+								if u, ok := x.Val.(*ssa.UnOp); ok && u.Op == token.MUL && fam.origin(u.X) == tc {
+									continue // tc = tc: go/ssa's copy of a named result onto itself at a return
+								}
+								if hf, ha, hargs, ok := w.builder(fam, x.Val, args); ok && depth < 2 && len(tokStores) == 0 {
+									builders++
+									scan(hf, ha, hargs, depth+1)
+									continue
+								}
+								c.Undec(rule, "tc-whole-store", x.Pos(), "the time-control struct is overwritten as a whole with a value that is neither zero nor the struct built by a chess-3 helper the rule can follow: fields can no longer be attributed to UCI tokens")
+								bad++
+							}
+						case *ssa.Call:
+							// pointer receivers / helpers taking &tc: fine when the callee (transitively) never
+							// writes a field of this struct type nor lets such an address escape
+							if callee := x.Call.StaticCallee(); callee != nil && isOwn(callee) && callee.Blocks != nil && w.readOnly(callee) {
+								continue
+							}
+							c.Undec(rule, "tc-escapes", in.Pos(), "the time-control struct's address is passed to %s, which may store to it: stores are not all visible", x.Call.Value.Name())
+							bad++
+						default:
+							c.Undec(rule, "tc-escapes", in.Pos(), "the time-control struct's address is used by %T in %s: stores to it are not all visible", in, fnName(fn))
+							bad++
+						}
 					}
-				}
-				st, ok := in.(*ssa.Store)
-				if !ok {
-					continue
-				}
-				fa, ok := st.Addr.(*ssa.FieldAddr)
-				if !ok || w.fam.origin(fa.X) != w.tc {
-					continue
-				}
-				var toks []string
-				for _, ce := range controllingConds(b) {
-					if bo, ok := ce.Cond.(*ssa.BinOp); ok && ce.True && bo.Op == token.EQL {
-						for _, side := range []ssa.Value{bo.X, bo.Y} {
-							if k, ok := side.(*ssa.Const); ok && k.Value != nil && k.Value.Kind() == constant.String {
-								toks = append(toks, constant.StringVal(k.Value))
+					st, ok := in.(*ssa.Store)
+					if !ok {
+						continue
+					}
+					fa, ok := st.Addr.(*ssa.FieldAddr)
+					if !ok || fam.origin(fa.X) != tc {
+						continue
+					}
+					var toks []string
+					for _, ce := range controllingConds(b) {
+						if bo, ok := ce.Cond.(*ssa.BinOp); ok && ce.True && bo.Op == token.EQL {
+							for _, side := range []ssa.Value{bo.X, bo.Y} {
+								if k, ok := side.(*ssa.Const); ok && k.Value != nil && k.Value.Kind() == constant.String {
+									toks = append(toks, constant.StringVal(k.Value))
+								}
 							}
 						}
 					}
+					if k, isZero := constOf(st.Val); len(toks) == 0 && isZero && k == 0 {
+						zeroStores = append(zeroStores, st) // field-wise zeroing; must precede every token store (checked below)
+						continue
+					}
+					if len(toks) != 1 || !strings.Contains(" "+strings.Join(tokens, " ")+" ", " "+toks[0]+" ") {
+						c.Undec(rule, "store:"+w.st.Field(fa.Field).Name(), st.Pos(), "field %s of the time-control struct is stored outside the case of exactly one of the UCI tokens %v (controlling tokens: %v): its meaning cannot be established", w.st.Field(fa.Field).Name(), tokens, toks)
+						bad++
+						continue
+					}
+					if fields[toks[0]] == nil {
+						fields[toks[0]] = map[int]*ssa.Store{}
+					}
+					fields[toks[0]][fa.Field] = st
+					tokStores = append(tokStores, st)
+					sl := backSlice(st.Val, sliceOpts{ThroughCalls: true, ThroughLoads: true})
+					argsOK[toks[0]] = args != nil && sl[args]
 				}
-				if k, isZero := constOf(st.Val); len(toks) == 0 && isZero && k == 0 {
-					zeroStores = append(zeroStores, st) // field-wise zeroing; must precede every token store (checked below)
-					continue
-				}
-				if len(toks) != 1 || !strings.Contains(" "+strings.Join(tokens, " ")+" ", " "+toks[0]+" ") {
-					c.Undec(rule, "store:"+w.st.Field(fa.Field).Name(), st.Pos(), "field %s of the time-control struct is stored outside the case of exactly one of the UCI tokens %v (controlling tokens: %v): its meaning cannot be established", w.st.Field(fa.Field).Name(), tokens, toks)
-					bad++
-					continue
-				}
-				if fields[toks[0]] == nil {
-					fields[toks[0]] = map[int]*ssa.Store{}
-				}
-				fields[toks[0]][fa.Field] = st
-				tokStores = append(tokStores, st)
-				sl := backSlice(st.Val, sliceOpts{ThroughCalls: true, ThroughLoads: true})
-				argsOK[toks[0]] = len(fn.Params) > 1 && sl[fn.Params[1]]
 			}
 		}
+	}
+	var goArgs ssa.Value
+	if len(w.goFn.Params) > 1 {
+		goArgs = w.goFn.Params[1]
+	}
+	scan(w.fam, w.tc, goArgs, 0)
+	if builders > 1 {
+		c.Undec(rule, "tc-whole-store", w.goFn.Pos(), "the time-control struct is assigned from %d helper results: which one the limit functions see is not established", builders)
+		bad++
 	}
 	for _, z := range zeroStores {
 		for _, t := range tokStores {
